@@ -29,10 +29,12 @@ type refDag struct {
 	round   []int
 	witness []bool
 	wits    [][]int // round -> witness ids (in creation order)
+	deep    bool    // computeFame also checks the unanimity lemma
+	coords  bool    // strongly-see as babble's event coordinates compute it (see coordCount)
 }
 
 func newRefDag(n int) *refDag {
-	return &refDag{n: n, byCI: make([][]int, n)}
+	return &refDag{n: n, byCI: make([][]int, n), coords: true}
 }
 
 func refSuperMajority(n int) int { return 2*n/3 + 1 }
@@ -103,6 +105,48 @@ func (d *refDag) sees(y, x int) bool { return int(d.la[y][d.creator[x]]) >= d.in
 // stronglySees: more than two thirds of the validators have an event on a
 // path from w to y.
 func (d *refDag) stronglySees(y, w int) bool {
+	return d.pathCount(y, w) >= refSuperMajority(d.n)
+}
+
+// coordCount is pathCount as babble's event coordinates compute it: the walk
+// that records "first descendant by p" on the ancestors of a new event stops
+// at the first witness it updates, so an event w learns about its first
+// descendant e by p only if no witness lies on w's creator's chain between w
+// (exclusive) and e's last ancestor on that chain (inclusive).
+func (d *refDag) coordCount(y, w int) int {
+	q := d.creator[w]
+	cnt := 0
+	for c := 0; c < d.n; c++ {
+		k := int(d.la[y][c])
+		if k < 0 || !d.sees(d.byCI[c][k], w) {
+			continue
+		}
+		// first event of c that descends from w
+		i := k
+		for i > 0 && d.sees(d.byCI[c][i-1], w) {
+			i--
+		}
+		e := d.byCI[c][i]
+		a := int(d.la[e][q])
+		ok := true
+		for t := d.index[w] + 1; t <= a; t++ {
+			if d.witness[d.byCI[q][t]] {
+				ok = false
+				break
+			}
+		}
+		if ok {
+			cnt++
+		}
+	}
+	return cnt
+}
+
+// pathCount: number of validators with an event on a path from w to y.
+func (d *refDag) pathCount(y, w int) int {
+	if d.coords {
+		return d.coordCount(y, w)
+	}
 	cnt := 0
 	for c := 0; c < d.n; c++ {
 		k := d.la[y][c]
@@ -113,7 +157,7 @@ func (d *refDag) stronglySees(y, w int) bool {
 			cnt++
 		}
 	}
-	return cnt >= refSuperMajority(d.n)
+	return cnt
 }
 
 type refDecision struct {
@@ -128,7 +172,7 @@ type refDecision struct {
 type refNear struct {
 	x, y, z int
 	v       bool
-	t       int
+	t, ss   int
 }
 
 type refFame struct {
@@ -136,6 +180,8 @@ type refFame struct {
 	deciders map[int][]refDecision
 	nears    []refNear
 	coin     map[int]bool // decisions that depended on a coin flip
+	dissent  [][2]int     // (x, y): y votes against a decision taken in its own round (deep mode)
+	score    float64      // how close the history comes to a strong contrary vote (search gradient)
 }
 
 // computeFame runs virtual voting over the whole DAG. coinFreq is the
@@ -145,9 +191,10 @@ func (d *refDag) computeFame(coinFreq int, middle func(string) bool) *refFame {
 	res := &refFame{fame: map[int]int{}, deciders: map[int][]refDecision{}, coin: map[int]bool{}}
 	sm := refSuperMajority(d.n)
 	type cand struct {
-		y int
-		v bool
-		t int
+		y      int
+		v      bool
+		t, ss  int
+		excess int // how firmly y strongly sees its most weakly seen minority voter
 	}
 	for r := 0; r < len(d.wits); r++ {
 		for _, x := range d.wits[r] {
@@ -163,12 +210,19 @@ func (d *refDag) computeFame(coinFreq int, middle func(string) bool) *refFame {
 						continue
 					}
 					yays, nays := 0, 0
+					minYes, minNo := 99, 99
 					for _, w := range d.wits[j-1] {
-						if d.stronglySees(y, w) {
+						if pc := d.pathCount(y, w); pc >= sm {
 							if votes[w] {
 								yays++
+								if pc-sm < minYes {
+									minYes = pc - sm
+								}
 							} else {
 								nays++
+								if pc-sm < minNo {
+									minNo = pc - sm
+								}
 							}
 						}
 					}
@@ -180,8 +234,13 @@ func (d *refDag) computeFame(coinFreq int, middle func(string) bool) *refFame {
 						votes[y] = v
 						if t >= sm {
 							res.deciders[x] = append(res.deciders[x], refDecision{x, y, v, t})
-						} else if t >= sm-1 && !tainted {
-							lops = append(lops, cand{y, v, t})
+						} else if t >= 2 && !tainted {
+							// a majority (or a tie) among the votes collected, short of the quorum
+							ex := minNo
+							if !v {
+								ex = minYes
+							}
+							lops = append(lops, cand{y, v, t, yays + nays, ex})
 						}
 					} else {
 						if t >= sm {
@@ -196,10 +255,46 @@ func (d *refDag) computeFame(coinFreq int, middle func(string) bool) *refFame {
 					}
 				}
 				if len(res.deciders[x]) > 0 {
+					if d.deep {
+						// unanimity lemma: once some witness of round j has decided v, every
+						// witness of round j votes v, hence every later vote is v
+						v0 := res.deciders[x][0].v
+						for _, y := range d.wits[j] {
+							if votes[y] != v0 {
+								res.dissent = append(res.dissent, [2]int{x, y})
+							}
+						}
+						for _, dz := range res.deciders[x] {
+							if dz.v != v0 {
+								res.dissent = append(res.dissent, [2]int{x, dz.y})
+							}
+						}
+					}
 					break
 				}
 			}
 			ds := res.deciders[x]
+			// search gradient
+			for _, l := range lops {
+				sc := 1 + float64(l.t)/float64(l.ss)
+				if l.ss == sm {
+					sc += 0.2
+				} else if l.excess < 99 {
+					sc += 0.1 / float64(1+l.excess)
+				}
+				if len(ds) > 0 && l.v != ds[0].v {
+					sc += 1.5
+					for _, dz := range ds {
+						if !d.sees(dz.y, l.y) {
+							sc += 1.5
+							break
+						}
+					}
+				}
+				if sc > res.score {
+					res.score = sc
+				}
+			}
 			if len(ds) == 0 {
 				continue
 			}
@@ -215,7 +310,7 @@ func (d *refDag) computeFame(coinFreq int, middle func(string) bool) *refFame {
 				}
 				for _, dz := range ds {
 					if !d.sees(dz.y, l.y) {
-						res.nears = append(res.nears, refNear{x, l.y, dz.y, l.v, l.t})
+						res.nears = append(res.nears, refNear{x, l.y, dz.y, l.v, l.t, l.ss})
 						break
 					}
 				}
@@ -336,4 +431,55 @@ func gossipPlays(r *RNG, n, events int) []synthPlay {
 		plays = append(plays, synthPlay{a, b})
 	}
 	return plays
+}
+
+// strength orders fragile votes: a larger share of the collected votes first.
+func (n refNear) strength() float64 {
+	return float64(n.t) / float64(n.ss)
+}
+
+// climbPlays improves a play list by random local edits, keeping an edit when
+// the reference model's search gradient does not decrease.
+func climbPlays(r *RNG, n int, plays []synthPlay, iters int, coinFreq int, want func(*refFame) bool) ([]synthPlay, *refFame) {
+	eval := func(p []synthPlay) *refFame {
+		d, _ := refFromPlays(n, p)
+		return d.computeFame(coinFreq, nil)
+	}
+	cur := append([]synthPlay{}, plays...)
+	best := eval(cur)
+	for it := 0; it < iters && !want(best); it++ {
+		cand := append([]synthPlay{}, cur...)
+		edits := 1 + r.Intn(3)
+		for e := 0; e < edits; e++ {
+			if len(cand) <= n+2 {
+				break
+			}
+			i := n + r.Intn(len(cand)-n)
+			switch r.Intn(5) {
+			case 0:
+				cand[i].creator = r.Intn(n)
+			case 1:
+				cand[i].other = r.Intn(n)
+			case 2:
+				cand = append(cand[:i], cand[i+1:]...)
+			case 3:
+				a, b := r.Intn(n), r.Intn(n)
+				cand = append(cand[:i], append([]synthPlay{{a, b}}, cand[i:]...)...)
+			case 4:
+				if i+1 < len(cand) {
+					cand[i], cand[i+1] = cand[i+1], cand[i]
+				}
+			}
+		}
+		for i := range cand {
+			if cand[i].creator == cand[i].other {
+				cand[i].other = (cand[i].other + 1) % n
+			}
+		}
+		f := eval(cand)
+		if f.score >= best.score {
+			cur, best = cand, f
+		}
+	}
+	return cur, best
 }
